@@ -235,7 +235,7 @@ class Run:
         self.fthread = {}       # script index of a 'fput' -> the thread parked before its second operation
         self.idx = -1
 
-    PATIENCE = 200          # polls of 5 ms: a helper thread that is still there after 1 s is parked for good
+    PATIENCE = 100          # polls of 5 ms: a helper thread that is still there after 0.5 s is parked for good
 
     def _helpers_pending(self):
         """a to_async_iter helper thread is still forwarding elements: wait for it before declaring
